@@ -22,6 +22,7 @@ E1 = {
     'C04': 'harness.c04_noconstruct',
     'C08': 'harness.c08_errors',
     'C09': 'harness.c09_resolver',
+    'C13': 'harness.c13_invariance',
     'C14': 'harness.c14_node',
     'C15': 'harness.c15_seasoning',
     'C16': 'harness.c16_require',
